@@ -555,8 +555,6 @@ func (k Keeper) RestartDutchAuctions(ctx sdk.Context, appID uint64) error {
 							if err != nil {
 								return err
 							}
-							length := k.vault.GetLengthOfVault(ctx)
-							k.vault.SetLengthOfVault(ctx, length+1)
 						}
 						burnToken.Amount = dutchAuction.InflowTokenCurrentAmount.Amount
 					}
